@@ -15,6 +15,7 @@ def tsan():
 STAGE_LIST = [
     simple.Stage("asan", asan, quick=160, thorough=6000, timeout=300, chunk=5),
     simple.Stage("tsan", tsan, quick=96, thorough=4000, timeout=600, tsan=True, chunk=3),
+    simple.Stage("fini-race", tsan, ["--mode", "finirace"], quick=320, thorough=6000, timeout=600, tsan=True, chunk=5),
 ]
 STAGES = {s.name: s.builder for s in STAGE_LIST}
 RULE = ("one case = 1-2 init..fini rounds (the second is a re-initialisation): 1-3 custom targets, some threaded, the "
@@ -23,7 +24,9 @@ RULE = ("one case = 1-2 init..fini rounds (the second is a re-initialisation): 1
         "thread is busy, in 20% of the rounds a hazard (disable/enable, close, un-thread) where only order, "
         "duplicates, termination and sanitizer reports are judged; after qb_log_fini: order, exactly-once, "
         "missing == sum of 'N messages lost' reports, nothing delivered after fini returned, late control calls "
-        "refused. distinct by hash of the round parameters")
+        "refused. stage fini-race: 120 init..fini rounds per case of 1-4 messages with 6 competing busy threads in the "
+        "process, so that qb_log_fini arrives while the logging thread is being woken for the last record. a third of "
+        "the other cases run with the same competing load. distinct by hash of the round parameters")
 
 
 def build_all():
